@@ -134,30 +134,39 @@ theorem renew_due_objects (r : Roas) (hr : r.WF) (force : Bool) (thr : Nat)
 
 example : (({} : Roas)).WF := wf_empty
 
-/-! ### A finding: a command can re-issue without a repository sync being queued
+/-! ### Every change of the object store queues a repository sync
 
-`cert_auth_pre_save_events` ends with `re_issue(force_reissue)`.  For events that do not change
-objects `force_reissue` is false, but a set that happens to be due is re-issued all the same –
-and such events queue no `SyncRepo` task (mq.rs:441-589).  The new manifest then stays
-unpublished until something else triggers a sync. -/
+`cert_auth_pre_save_events` ends with `re_issue(force_reissue)`: a set that is due is re-issued even
+when none of the command's events changes objects.  Since the fix of finding F-C14-2 (/repo
+9258d910) the listener reports that and `CertAuth::pre_save_events` queues `SyncRepo`. -/
 
-/-- Events for which `TaskQueue::schedule_for_ca_event` queues `SyncRepo`. -/
-def schedulesSync : ObjEvent → Bool
-  | .roasUpdated .. | .aspasUpdated .. | .bgpsecUpdated .. | .certsUpdated ..
-  | .keyPendingToActive .. | .keyPendingToNew .. | .keyRollActivated .. | .keyRollFinished ..
-  | .resourceClassRemoved .. => true
-  | _ => false
+/-- If a command queues no repository sync, it has not changed the object store at all (so: every
+re-issue, forced or due, and every object change is followed by a sync). -/
+theorem every_change_queues_sync (o : CaObjects) (evs : List ObjEvent) (now : Nat) (t : Timing)
+    (ins : IssueInputs) (o' : CaObjects) (h : preSaveSync o evs now t ins = some (o', false)) : o' = o := by
+  simp only [preSaveSync] at h
+  cases hev : applyEvents t o evs with
+  | none => simp [hev] at h
+  | some r =>
+    obtain ⟨o1, f⟩ := r
+    simp only [hev, Option.map, Option.some.injEq, Prod.mk.injEq, Bool.or_eq_false_iff] at h
+    obtain ⟨h1, h2, h3⟩ := h
+    have e1 := applyEvents_nosync_id t evs o o1 f h2 hev
+    rw [← h1, reIssue_false_id o1 f now t ins h3, e1]
 
-/-- Full statement (false of the code): every command that re-issues queues a repository sync.
-    `∀ o evs now t ins o', preSave o evs now t ins = some o' → o' ≠ o → evs.any schedulesSync` -/
-theorem command_reissue_without_sync :
+example : preSaveSync [(0, .current default)] [.other] 100 {} (fun _ => (default, default)) =
+    some ([(0, .current ((default : KeyObjectSet).reissue {} default))], true) := by decide
+
+/-- The behaviour before the fix (replayed on the code at the time, finding F-C14-2): a command
+whose events queue no sync re-issued a due manifest – the new manifest stayed unpublished. -/
+theorem pinned_command_reissue_without_sync :
     ∃ (o : CaObjects) (evs : List ObjEvent) (now : Nat) (t : Timing) (ins : IssueInputs) (o' : CaObjects),
-      preSave o evs now t ins = some o' ∧ o' ≠ o ∧ evs.any schedulesSync = false :=
+      pinnedPreSaveSync o evs now t ins = some (o', false) ∧ o' ≠ o :=
   ⟨[(0, .current default)], [.other], 100, {}, fun _ => (default, default),
-    [(0, .current ((default : KeyObjectSet).reissue {} default))], by decide, by decide, by decide⟩
+    [(0, .current ((default : KeyObjectSet).reissue {} default))], by decide, by decide⟩
 
-/-- What does hold: whenever nothing is due, only forcing events change the object store. -/
-theorem command_reissue_without_sync_partial (o : CaObjects) (evs : List ObjEvent) (now : Nat) (t : Timing)
+/-- Whenever nothing is due, only forcing events change the object store. -/
+theorem not_due_only_forcing_events_change (o : CaObjects) (evs : List ObjEvent) (now : Nat) (t : Timing)
     (ins : IssueInputs) (o₁ : CaObjects)
     (hev : applyEvents t o evs = some (o₁, false))
     (h : ∀ e ∈ o₁, ∀ s ∈ e.2.sets, s.requiresReissuance now t.hoursBefore = false) :
